@@ -24,6 +24,7 @@ class Engine(StmtMixin, CallMixin, ExprMixin, EngineBase):
             c.fun(name, asorts, ret)
             c.predefined.add(name)
         c.user_defs = self.m.defs_text
+        c.predeclared_opts = list(self.m.predeclared_opts)
         return c
 
     def entry_state(self, k):
